@@ -742,6 +742,28 @@ func (e *CEnv) evalCall(n *CCall) (CV, error) {
 			return CV{}, cerr("as: unknown type %s", sl.Val)
 		}
 		return CV{T: v.T, GoT: t}, nil
+	case "unbox": // unbox(x, "string"|"[]byte"|"pkg.T"): the non-reference value an interface holds when typeis(x, T)
+		if len(n.Args) != 2 {
+			return CV{}, cerr("unbox(x, \"T\")")
+		}
+		v, err := e.Eval(n.Args[0])
+		if err != nil {
+			return CV{}, err
+		}
+		sl, ok := n.Args[1].(*CStr)
+		if !ok {
+			return CV{}, cerr("unbox needs a string literal")
+		}
+		t := e.ex.lookupTypeByString(sl.Val)
+		if t == nil {
+			return CV{}, cerr("unbox: unknown type %s", sl.Val)
+		}
+		s := w.SortOf(t)
+		if s == SRef {
+			return CV{T: v.T, GoT: t}, nil
+		}
+		ub := w.D.Fun(fmt.Sprintf("unbox!%d!%s", w.TypeID(t), sortTag(s)), []Sort{SRef}, s)
+		return CV{T: App(s, ub, v.T), GoT: t}, nil
 	case "fresh":
 		args, err := evalArgs()
 		if err != nil {
@@ -966,7 +988,13 @@ func (ex *Exec) mapLen(present Term) Term {
 }
 
 func (ex *Exec) lookupTypeByString(s string) types.Type {
-	// "*pkg/path.Name" or "pkg/path.Name"
+	// "*pkg/path.Name" or "pkg/path.Name"; "string" and "[]byte" for boxed basic values
+	switch s {
+	case "string":
+		return types.Typ[types.String]
+	case "[]byte":
+		return types.NewSlice(types.Universe.Lookup("byte").Type())
+	}
 	ptr := strings.HasPrefix(s, "*")
 	name := strings.TrimPrefix(s, "*")
 	i := strings.LastIndex(name, ".")
